@@ -84,6 +84,7 @@ struct Actor
   std::function<void()> job;
   std::string park_reason;
   bool stall_armed{false};
+  uint64_t last_writer_bytes{0};
   std::string result; // filled by the job
   std::thread th;
   bool alive{true};
@@ -393,13 +394,14 @@ static void do_log_static(LoggerT* lg, int lvl, long id, size_t len)
 
 static uint64_t writer_bytes()
 {
-  // total bytes ever finished by the calling thread's queue (bounded variants): private access
-  auto* tc = quill::detail::get_local_thread_context<H2FrontendOptions>();
+  // total bytes ever finished by the calling thread's queue; 0 while the thread has no context yet
+  // (asking for the context would register it, which must be left to the log call itself)
+  auto* tc = quill::detail::LoggerBase::thread_context;
+  if (!tc) { return 0; }
 #if H2_VARIANT <= 1
   return tc->get_spsc_queue_union().bounded_spsc_queue._writer_pos;
 #else
-  auto& uq = tc->get_spsc_queue_union().unbounded_spsc_queue;
-  return uq._producer->bounded_queue._writer_pos + 1000000000ull * reinterpret_cast<uintptr_t>(uq._producer) % 1000003ull;
+  return tc->get_spsc_queue_union().unbounded_spsc_queue._producer->bounded_queue._writer_pos;
 #endif
 }
 
@@ -471,7 +473,7 @@ static std::string exec_op(std::vector<std::string> const& w)
       [=, &a]
       {
         int const ev0 = g_evals;
-        uint64_t const b0 = writer_bytes();
+        uint64_t const b0 = a->last_writer_bytes;
         std::string r;
         if (op == "L")
         {
@@ -490,7 +492,11 @@ static std::string exec_op(std::vector<std::string> const& w)
           r = "id=" + std::to_string(id);
         }
         uint64_t const b1 = writer_bytes();
-        r += " ev=" + std::to_string(g_evals - ev0) + " bytes=" + std::to_string(b1 - b0);
+        a->last_writer_bytes = b1;
+        r += " ev=" + std::to_string(g_evals - ev0);
+#if H2_VARIANT <= 1
+        r += " bytes=" + std::to_string(b1 - b0);
+#endif
         a->result = r;
       });
     if (st == Actor::PARKED) { return "id=" + std::to_string(id) + " parked:" + a->park_reason; }
@@ -507,14 +513,14 @@ static std::string exec_op(std::vector<std::string> const& w)
     {
       uint32_t const cap = static_cast<uint32_t>(std::stoul(w[3]));
       int const fl = std::stoi(w[4]);
-      j = [=, &a] { lg->init_backtrace(cap, static_cast<quill::LogLevel>(fl)); a->result = "done"; };
+      j = [=, &a] { lg->init_backtrace(cap, static_cast<quill::LogLevel>(fl)); a->last_writer_bytes = writer_bytes(); a->result = "done"; };
     }
-    else if (op == "FB") { j = [=, &a] { lg->flush_backtrace(); a->result = "done"; }; }
-    else if (op == "F") { j = [=, &a] { lg->flush_log(); a->result = "done"; }; }
+    else if (op == "FB") { j = [=, &a] { lg->flush_backtrace(); a->last_writer_bytes = writer_bytes(); a->result = "done"; }; }
+    else if (op == "F") { j = [=, &a] { lg->flush_log(); a->last_writer_bytes = writer_bytes(); a->result = "done"; }; }
     else if (op == "RB")
     {
       g_loggers[g] = nullptr;
-      j = [=, &a] { FE::remove_logger_blocking(lg); a->result = "done"; };
+      j = [=, &a] { FE::remove_logger_blocking(lg); a->last_writer_bytes = writer_bytes(); a->result = "done"; };
     }
     else
     {
@@ -719,21 +725,23 @@ int main(int argc, char** argv)
         cal.drive(
           [&]
           {
-            uint64_t const w0 = writer_bytes();
             bool c = false;
             (void)do_log_dynamic_ret(lg, quill::LogLevel::Info, 900000, 10, c);
-            b[0] = writer_bytes() - w0;
+            b[0] = writer_bytes();
             do_log_static(lg, 4, 900001, 10);
-            b[1] = writer_bytes() - w0 - b[0];
+            b[1] = writer_bytes() - b[0];
             do_log_static(lg, 4, 900002, 30);
-            b[2] = writer_bytes() - w0 - b[0] - b[1];
+            b[2] = writer_bytes() - b[0] - b[1];
           });
+        g_vnow += 1000000000LL;
         for (int i = 0; i < 8; ++i) { g_mw->poll_one(); }
         cal.quit();
         FE::remove_logger(lg);
+        sp.reset();
         for (int i = 0; i < 8; ++i) { g_mw->poll_one(); }
         g_events.clear();
-        std::cout << "start => dyn10=" << b[0] << " static10=" << b[1] << " static30=" << b[2] << "\n";
+        std::cout << "start => dyn10=" << b[0] << " static10=" << b[1] << " static30=" << b[2]
+                  << " now=" << (g_vnow.load() - T0) << "\n";
       }
       continue;
     }
